@@ -109,7 +109,7 @@ PROPS = {
              "discipline (machine-level memory safety) is outside Lean. Trusted: Lean kernel, harness.",
         assumptions=["chunk >= 1", "position() not wrapped"]),
     "C09": dict(
-        module="Flussab.Props.C09", modules=["Flussab.Props.C09", "Flussab.Props.C09Parsers", "Flussab.Props.C09Btor2", "Flussab.Props.C09Aiger", "Flussab.Props.TieReader", "Flussab.Props.TieCnfToken", "Flussab.Props.TieCnfParser", "Flussab.Props.TieWcnfParser", "Flussab.Props.TieGcnfParser", "Flussab.Props.TieSatLog", "Flussab.Props.TieLineReader", "Flussab.Props.TieAigerToken", "Flussab.Props.TieBtor2Token", "Flussab.Props.TieBtor2Parser", "Flussab.Props.TieAigerHeader", "Flussab.Props.TieAigerNew", "Flussab.Props.TieAigerSections", "Flussab.Props.TieAigerBinSections", "Flussab.Props.TieAigerSymbols"],
+        module="Flussab.Props.C09", modules=["Flussab.Props.C09", "Flussab.Props.C09Parsers", "Flussab.Props.C09Btor2", "Flussab.Props.C09Aiger", "Flussab.Props.TieReader", "Flussab.Props.TieCnfToken", "Flussab.Props.TieCnfParser", "Flussab.Props.TieWcnfParser", "Flussab.Props.TieGcnfParser", "Flussab.Props.TieSatLog", "Flussab.Props.TieLineReader", "Flussab.Props.TieAigerToken", "Flussab.Props.TieBtor2Token", "Flussab.Props.TieBtor2Parser", "Flussab.Props.TieAigerHeader", "Flussab.Props.TieAigerNew", "Flussab.Props.TieAigerSections", "Flussab.Props.TieAigerBinSections", "Flussab.Props.TieAigerSymbols", "Flussab.Props.TieAigerParse"],
         engines=[("aiger", 1500, 50000, "ls"), ("reader", 4000, 150000, ""), ("cnf", 2500, 80000, "ls"), ("btor2", 1500, 50000, "ls"), ("reader", 528, 1200, "scale"), ("cnf", 270, 600, "scale"), ("btor2", 24, 120, "scale:ls"), ("aiger", 40, 300, "scale:ls")], release=True,
         claim="Reader layer proved for all histories and schedules: exactly one non-Interrupted read per refill "
               "(one_read_per_refill), no read when buffered data satisfies the request (no_read_if_satisfied), no "
@@ -196,7 +196,7 @@ PROPS = {
              "they are covered by C14's length invariant only.",
         assumptions=["the sink obeys the Write contract (accepts at most the slice length)"]),
     "C01": dict(
-        module="Flussab.Props.C01", modules=["Flussab.Props.C01", "Flussab.Props.C01Btor2", "Flussab.Props.TieReader", "Flussab.Props.TieText", "Flussab.Props.TieCnfToken", "Flussab.Props.TieCnfParser", "Flussab.Props.TieWcnfParser", "Flussab.Props.TieGcnfParser", "Flussab.Props.TieSatLog", "Flussab.Props.TieLineReader", "Flussab.Props.TieAigerToken", "Flussab.Props.TieBtor2Token", "Flussab.Props.TieBtor2Parser", "Flussab.Props.TieAigerHeader", "Flussab.Props.TieAigerNew", "Flussab.Props.TieAigerSections", "Flussab.Props.TieAigerBinSections", "Flussab.Props.TieAigerSymbols"],
+        module="Flussab.Props.C01", modules=["Flussab.Props.C01", "Flussab.Props.C01Btor2", "Flussab.Props.TieReader", "Flussab.Props.TieText", "Flussab.Props.TieCnfToken", "Flussab.Props.TieCnfParser", "Flussab.Props.TieWcnfParser", "Flussab.Props.TieGcnfParser", "Flussab.Props.TieSatLog", "Flussab.Props.TieLineReader", "Flussab.Props.TieAigerToken", "Flussab.Props.TieBtor2Token", "Flussab.Props.TieBtor2Parser", "Flussab.Props.TieAigerHeader", "Flussab.Props.TieAigerNew", "Flussab.Props.TieAigerSections", "Flussab.Props.TieAigerBinSections", "Flussab.Props.TieAigerSymbols", "Flussab.Props.TieAigerParse"],
         engines=[("aiger", 3000, 150000, "rt+layout+mutate+arbitrary+utf8+huge"), ("cnf", 4000, 200000, "mix"), ("btor2", 3000, 150000, "rt+layout+kinds+mutate+arbitrary+kw"), ("reader", 1500, 50000, ""), ("btor2", 160, 640, "scale"), ("cnf", 270, 2600, "scale"), ("reader", 528, 1200, "scale"), ("aiger", 40, 300, "scale"), ("cnf", 900, 2000, "dict"), ("btor2", 900, 2000, "dict"), ("aiger", 900, 2000, "dict")], release=True,
         audit_observables=True,
         bv_decide_theorems=["signed_ascii_digits_multi_tied", "multi_scanners_buffer_independent", "btor2_lowercase_kernel", "btor2_lowercase_kernel_no_panic",
@@ -228,7 +228,7 @@ PROPS = {
              "model side merely predicts the item count. Trusted: Lean kernel, harness, counting allocator.",
         assumptions=["chunk >= 1", "honest source"]),
     "C06": dict(
-        module="Flussab.Props.C06", modules=["Flussab.Props.C06", "Flussab.Props.C06Cnf", "Flussab.Props.C06Aiger", "Flussab.Props.C06Btor2", "Flussab.Props.TieCnfToken", "Flussab.Props.TieCnfParser", "Flussab.Props.TieWcnfParser", "Flussab.Props.TieGcnfParser", "Flussab.Props.TieSatLog", "Flussab.Props.TieLineReader", "Flussab.Props.TieAigerToken", "Flussab.Props.TieBtor2Token", "Flussab.Props.TieBtor2Parser", "Flussab.Props.TieAigerHeader", "Flussab.Props.TieAigerNew", "Flussab.Props.TieAigerSections", "Flussab.Props.TieAigerBinSections", "Flussab.Props.TieAigerSymbols"], engines=[("aiger", 4000, 150000, "rt+layout+mutate+huge+corrupt"), ("cnf", 6000, 200000, "layout+rt+mutate+arbitrary+corrupt+corrupt+log+logmut"), ("cnf", 270, 600, "scale"), ("aiger", 40, 300, "scale:valid")], release=True,
+        module="Flussab.Props.C06", modules=["Flussab.Props.C06", "Flussab.Props.C06Cnf", "Flussab.Props.C06Aiger", "Flussab.Props.C06Btor2", "Flussab.Props.TieCnfToken", "Flussab.Props.TieCnfParser", "Flussab.Props.TieWcnfParser", "Flussab.Props.TieGcnfParser", "Flussab.Props.TieSatLog", "Flussab.Props.TieLineReader", "Flussab.Props.TieAigerToken", "Flussab.Props.TieBtor2Token", "Flussab.Props.TieBtor2Parser", "Flussab.Props.TieAigerHeader", "Flussab.Props.TieAigerNew", "Flussab.Props.TieAigerSections", "Flussab.Props.TieAigerBinSections", "Flussab.Props.TieAigerSymbols", "Flussab.Props.TieAigerParse"], engines=[("aiger", 4000, 150000, "rt+layout+mutate+huge+corrupt"), ("cnf", 6000, 200000, "layout+rt+mutate+arbitrary+corrupt+corrupt+log+logmut"), ("cnf", 270, 600, "scale"), ("aiger", 40, 300, "scale:valid")], release=True,
         bv_decide_theorems=[],
         claim="Numbers: every number token is produced by the decimal scanners, which return the exact decimal value "
               "of the digit run or None (C13) - restated at token level (unsigned_token_exact, signed_token_exact: a "
@@ -248,7 +248,7 @@ PROPS = {
              "blanks, exactly the canonical text of the returned Line). Trusted: Lean kernel, harness, the independent reference lexer.",
         assumptions=["64-bit usize/isize"]),
     "C03": dict(
-        module="Flussab.Props.C03Cnf", modules=["Flussab.Props.C03Aiger", "Flussab.Props.C03AigerConverse", "Flussab.Props.C03Cnf", "Flussab.Props.C03Btor2", "Flussab.Props.TieDimacsWrite", "Flussab.Props.TieAigerWrite", "Flussab.Props.TieBtor2Write", "Flussab.Props.TieCnfToken", "Flussab.Props.TieCnfParser", "Flussab.Props.TieWcnfParser", "Flussab.Props.TieGcnfParser", "Flussab.Props.TieSatLog", "Flussab.Props.TieLineReader", "Flussab.Props.TieAigerToken", "Flussab.Props.TieBtor2Token", "Flussab.Props.TieBtor2Parser", "Flussab.Props.TieAigerHeader", "Flussab.Props.TieAigerNew", "Flussab.Props.TieAigerSections", "Flussab.Props.TieAigerBinSections", "Flussab.Props.TieAigerSymbols"],
+        module="Flussab.Props.C03Cnf", modules=["Flussab.Props.C03Aiger", "Flussab.Props.C03AigerConverse", "Flussab.Props.C03Cnf", "Flussab.Props.C03Btor2", "Flussab.Props.TieDimacsWrite", "Flussab.Props.TieAigerWrite", "Flussab.Props.TieBtor2Write", "Flussab.Props.TieCnfToken", "Flussab.Props.TieCnfParser", "Flussab.Props.TieWcnfParser", "Flussab.Props.TieGcnfParser", "Flussab.Props.TieSatLog", "Flussab.Props.TieLineReader", "Flussab.Props.TieAigerToken", "Flussab.Props.TieBtor2Token", "Flussab.Props.TieBtor2Parser", "Flussab.Props.TieAigerHeader", "Flussab.Props.TieAigerNew", "Flussab.Props.TieAigerSections", "Flussab.Props.TieAigerBinSections", "Flussab.Props.TieAigerSymbols", "Flussab.Props.TieAigerParse"],
         engines=[("aiger", 3000, 120000, "rt+layout"), ("cnf", 3000, 120000, "rt+layout"), ("btor2", 3000, 120000, "rt+rtbad+layout+kinds+valid"), ("btor2", 0, 0, "validx"), ("btor2", 96, 400, "scale:just_rt+sym+cmt+const+num+lines+ws_valid+valid"), ("cnf", 270, 600, "scale"), ("aiger", 40, 300, "scale:valid")], release=True,
         claim="Theorems over the parser and writer models: cnf_roundtrip (CNF/WCNF/GCNF, every literal type, both "
               "ignore_header settings: parse(write(h, cs)) = (h, cs, clean end) for every value in the explicit "
@@ -271,7 +271,7 @@ PROPS = {
         trusted=["tools/gen_tables.py (keyword / name tables translator)"],
         assumptions=["document shorter than 2^64 - 1 bytes"]),
     "C04": dict(
-        module="Flussab.Props.C04", modules=["Flussab.Props.C04", "Flussab.Props.C04Prefix", "Flussab.Props.C04Btor2", "Flussab.Props.C04Aiger", "Flussab.Props.C04AigerPrefix", "Flussab.Props.TieCnfToken", "Flussab.Props.TieCnfParser", "Flussab.Props.TieWcnfParser", "Flussab.Props.TieGcnfParser", "Flussab.Props.TieSatLog", "Flussab.Props.TieLineReader", "Flussab.Props.TieAigerToken", "Flussab.Props.TieBtor2Token", "Flussab.Props.TieBtor2Parser", "Flussab.Props.TieAigerHeader", "Flussab.Props.TieAigerNew", "Flussab.Props.TieAigerSections", "Flussab.Props.TieAigerBinSections", "Flussab.Props.TieAigerSymbols"],
+        module="Flussab.Props.C04", modules=["Flussab.Props.C04", "Flussab.Props.C04Prefix", "Flussab.Props.C04Btor2", "Flussab.Props.C04Aiger", "Flussab.Props.C04AigerPrefix", "Flussab.Props.TieCnfToken", "Flussab.Props.TieCnfParser", "Flussab.Props.TieWcnfParser", "Flussab.Props.TieGcnfParser", "Flussab.Props.TieSatLog", "Flussab.Props.TieLineReader", "Flussab.Props.TieAigerToken", "Flussab.Props.TieBtor2Token", "Flussab.Props.TieBtor2Parser", "Flussab.Props.TieAigerHeader", "Flussab.Props.TieAigerNew", "Flussab.Props.TieAigerSections", "Flussab.Props.TieAigerBinSections", "Flussab.Props.TieAigerSymbols", "Flussab.Props.TieAigerParse"],
         engines=[("aiger", 2000, 60000, "fault"), ("aiger", 2, 300, "sweep"), ("cnf", 3000, 100000, "fault+logfault"), ("cnf", 25, 1500, "sweep"), ("btor2", 2000, 60000, "fault"), ("btor2", 15, 600, "sweep"), ("btor2", 24, 120, "scale:fault"), ("cnf", 270, 600, "scale"), ("aiger", 40, 300, "scale:fault")], release=True,
         claim="Theorems for every byte string and every fault offset (the view delivers b then fails): "
               "cnf_fault_never_clean_end / log_fault_never_ok / btor2_fault_final (a failing source is never reported "
@@ -298,7 +298,7 @@ PROPS = {
              "Trusted: Lean kernel, harness.",
         assumptions=["input shorter than 2^63 bytes"]),
     "C05": dict(
-        module="Flussab.Props.C05", modules=["Flussab.Props.C05Aiger", "Flussab.Props.C05", "Flussab.Props.C05Btor2", "Flussab.Props.TieCnfToken", "Flussab.Props.TieCnfParser", "Flussab.Props.TieWcnfParser", "Flussab.Props.TieGcnfParser", "Flussab.Props.TieSatLog", "Flussab.Props.TieLineReader", "Flussab.Props.TieAigerToken", "Flussab.Props.TieBtor2Token", "Flussab.Props.TieBtor2Parser", "Flussab.Props.TieAigerHeader", "Flussab.Props.TieAigerNew", "Flussab.Props.TieAigerSections", "Flussab.Props.TieAigerBinSections", "Flussab.Props.TieAigerSymbols"],
+        module="Flussab.Props.C05", modules=["Flussab.Props.C05Aiger", "Flussab.Props.C05", "Flussab.Props.C05Btor2", "Flussab.Props.TieCnfToken", "Flussab.Props.TieCnfParser", "Flussab.Props.TieWcnfParser", "Flussab.Props.TieGcnfParser", "Flussab.Props.TieSatLog", "Flussab.Props.TieLineReader", "Flussab.Props.TieAigerToken", "Flussab.Props.TieBtor2Token", "Flussab.Props.TieBtor2Parser", "Flussab.Props.TieAigerHeader", "Flussab.Props.TieAigerNew", "Flussab.Props.TieAigerSections", "Flussab.Props.TieAigerBinSections", "Flussab.Props.TieAigerSymbols", "Flussab.Props.TieAigerParse"],
         engines=[("aiger", 4000, 150000, "mutate+arbitrary+utf8+huge+corrupt"), ("cnf", 5000, 250000, "mutate+arbitrary+corrupt+logmut+layout"), ("btor2", 4000, 150000, "mutate+arbitrary+corrupt+kw+declared"), ("btor2", 160, 640, "scale"), ("cnf", 270, 2600, "scale"), ("aiger", 40, 300, "scale"), ("cnf", 900, 2000, "dict"), ("btor2", 900, 2000, "dict"), ("aiger", 900, 2000, "dict")],
         release=True,
         claim="Every Rust panic site is an explicit value in the models (advance / slice beyond scanned data, column "
@@ -332,7 +332,7 @@ PROPS = {
              "generator is independent of Spec/Layout.lean).",
         assumptions=["document shorter than 2^64 - 1 bytes"]),
     "C08": dict(
-        module="Flussab.Props.C08", modules=["Flussab.Props.C08", "Flussab.Props.C08Btor2", "Flussab.Props.C08Aiger", "Flussab.Props.C08Btor2Catalogue", "Flussab.Props.C08CnfCatalogue", "Flussab.Props.TieCnfToken", "Flussab.Props.TieCnfParser", "Flussab.Props.TieWcnfParser", "Flussab.Props.TieGcnfParser", "Flussab.Props.TieSatLog", "Flussab.Props.TieLineReader", "Flussab.Props.TieAigerToken", "Flussab.Props.TieBtor2Token", "Flussab.Props.TieBtor2Parser", "Flussab.Props.TieAigerHeader", "Flussab.Props.TieAigerNew", "Flussab.Props.TieAigerSections", "Flussab.Props.TieAigerBinSections", "Flussab.Props.TieAigerSymbols"],
+        module="Flussab.Props.C08", modules=["Flussab.Props.C08", "Flussab.Props.C08Btor2", "Flussab.Props.C08Aiger", "Flussab.Props.C08Btor2Catalogue", "Flussab.Props.C08CnfCatalogue", "Flussab.Props.TieCnfToken", "Flussab.Props.TieCnfParser", "Flussab.Props.TieWcnfParser", "Flussab.Props.TieGcnfParser", "Flussab.Props.TieSatLog", "Flussab.Props.TieLineReader", "Flussab.Props.TieAigerToken", "Flussab.Props.TieBtor2Token", "Flussab.Props.TieBtor2Parser", "Flussab.Props.TieAigerHeader", "Flussab.Props.TieAigerNew", "Flussab.Props.TieAigerSections", "Flussab.Props.TieAigerBinSections", "Flussab.Props.TieAigerSymbols", "Flussab.Props.TieAigerParse"],
         engines=[("aiger", 4000, 150000, "corrupt+mutate+arbitrary+utf8"), ("cnf", 5000, 250000, "corrupt+mutate+arbitrary+logmut"), ("btor2", 4000, 150000, "corrupt+mutate+arbitrary"), ("btor2", 112, 480, "scale:ws_nl+ws_mix+just_err+num+sym+cmt+const+lines+ls"), ("cnf", 270, 600, "scale"), ("aiger", 40, 300, "scale:err"), ("cnf", 900, 2000, "dict"), ("btor2", 900, 2000, "dict"), ("aiger", 900, 2000, "dict")], release=True,
         claim="Range, for every input and both source kinds: cnf_error_in_range, log_error_in_range, "
               "btor2_error_in_range - a reported (line, col) satisfies 1 <= line <= nlines+1 and 1 <= col <= "
